@@ -177,6 +177,9 @@ pub fn panic_owner(op: &Op) -> &'static str {
 fn v(out: &mut Vec<Viol>, prop: &'static str, sig: &str, msg: String) { out.push(Viol { prop, msg, sig: sig.to_string() }); }
 
 /// Evaluate every facet on one event of one cache.
+/// reserve documents a panic when the new allocation size overflows usize
+pub fn documented_panic(op: &Op, pre: &Obs) -> bool { matches!(op, Op::Reserve { n } if pre.len.checked_add(*n).is_none() || *n > (usize::MAX >> 4)) }
+
 pub fn check_event(ev: &Event, st: &mut Stats, out: &mut Vec<Viol>) {
     let pre = ev.pre; let op = ev.op; let o = ev.out; let base = ev.base;
     st.events += 1;
@@ -187,7 +190,7 @@ pub fn check_event(ev: &Event, st: &mut Stats, out: &mut Vec<Viol>) {
     if let Some(p) = &o.panic {
         let owner = panic_owner(op);
         // reserve documents a panic on capacity overflow
-        let documented = matches!(op, Op::Reserve { n } if pre.len.checked_add(*n).is_none() || *n > (usize::MAX >> 4));
+        let documented = documented_panic(op, pre);
         if !documented {
             let sig = if p.contains("overflow") { "panic-arith-overflow" } else { "panic-unexpected" };
             v(out, owner, sig, format!("{} panicked: {}", op.to_text(), p));
@@ -195,6 +198,13 @@ pub fn check_event(ev: &Event, st: &mut Stats, out: &mut Vec<Viol>) {
                 // the update was abandoned half-way: bound and accounting are no longer specified by anything
                 v(out, "C01", sig, format!("{} panicked on size arithmetic with limit {}: {}", op.to_text(), pre.max, p));
                 v(out, "C02", sig, format!("{} panicked on size arithmetic with limit {}: {}", op.to_text(), pre.max, p));
+            }
+        } else if let Some(post) = ev.post {
+            // the documented refusal is still a capacity operation: contents, order, sizes and structure stay as they were
+            st.count("c13_documented_reserve_panics");
+            for m in &post.g1 { v(out, "C13", "not-transparent", format!("{} (refused with its documented panic) left the structure incoherent: {}", op.to_text(), m)); }
+            if post.logical() != pre.logical() || (post.len, post.cur, post.max) != (pre.len, pre.cur, pre.max) || post.cap < pre.cap.min(pre.len) {
+                v(out, "C13", "not-transparent", format!("{} (refused with its documented panic) changed the cache: {:?} -> {:?}", op.to_text(), pre.ids(), post.ids()));
             }
         }
         return;
